@@ -964,6 +964,12 @@ class Rewriter:
                     raise ExtractError('R38: the closure handed to %s is `%s`, not `%s`' % (m_.group(0), got[:80], want))
                 return '%s(w, fs, %s)' % (m_.group(0).rstrip('(').rstrip(), a[0])
             b = self.map_calls(b, r'\bself\.(?:try_alloc_slice_fill_with|alloc_slice_try_fill_with|alloc_slice_fill_with)', _fw, 'R38:closure-is-the-initialiser')
+            def _fw0(m_, a):
+                got = re.sub(r'\s+', ' ', ', '.join(a)).strip()
+                if got != want:
+                    raise ExtractError('R38: the closure handed to %s is `%s`, not `%s`' % (m_.group(0), got[:80], want))
+                return '%s(w, fs)' % m_.group(0).rstrip('(').rstrip()
+            b = self.map_calls(b, r'\bself\.(?:try_alloc_with|alloc_with)', _fw0, 'R38:closure-is-the-initialiser')
             b = self.sub('R38:exact-iter', r'(?m)^\s*let mut iter = iter\.into_iter\(\);\s*$', '', b)
             return b
         if c.get('fwd_str'):
